@@ -164,6 +164,10 @@ def judge_file(f, before, after, diags):
                 if elsewhere:
                     covered_c[elsewhere[0]] += 1
                     problems.append(("pos|DS103|%s|%s" % (cls, writer), "DS103 for column %r at Pos %r which is not inside the statement / rebuild group dropping %s.%s" % (c, pos, elsewhere[0][0], c)))
+                elif [x for x in stmts if x.region <= pos < x.end and x.kind == "drop_column" and x.args[0].startswith("new_")
+                      and x.args[0] in created and x.args[0] not in before and x.args[0] not in canon_tmp]:
+                    problems.append(("spurious|DS103|column-of-table-named-new_*-created-in-file",
+                                     "column %r belongs to a table created inside %s (nothing that existed before is lost) yet DS103 is reported at Pos %r" % (c, f["name"], pos)))
                 else:
                     vv = [tc for tc in virt if tc[1] == c]
                     problems.append(("spurious|DS103|%s|%s|%s" % ("virtual" if vv else "not-dropped", cls, writer), "DS103 names column %r at Pos %r: %s" % (c, pos, "it is VIRTUAL" if vv else "no such non-virtual column was dropped by this file")))
@@ -183,6 +187,11 @@ def judge_file(f, before, after, diags):
     for (t, c), n in covered_c.items():
         if n == 0:
             how = "alter" if (t in drop_col and any(s.kind == "drop_column" and s.args == (t, c) for s in stmts)) else "rebuild"
+            sib = [s for s in stmts if s.kind == "create_table" and s.args[0] == "new_" + t and "new_" + t not in canon_tmp and ("`%s`" % c) in s.text]
+            if sib:
+                problems.append(("missing|DS103|file-creates-new_<t>-with-column-<c>-and-drops-<t>.<c>",
+                                 "non-virtual column %s.%s existed before %s and is dropped by it (%s), no DS103; the same file creates table %r with a column %r" % (t, c, f["name"], how, "new_" + t, c)))
+                continue
             problems.append(("missing|DS103|%s|%s|%s" % (how, cls, writer), "non-virtual column %s.%s existed before %s and is dropped by it (%s), no DS103 diagnostic" % (t, c, f["name"], how)))
         elif n > 1:
             problems.append(("duplicate|DS103|%s|%s" % (cls, writer), "%d diagnostics for column %s.%s" % (n, t, c)))
